@@ -71,7 +71,7 @@ func recursiveDoc(depth int) any {
 
 func init() {
 	register("C10", func(c *engine.Ctx) {
-		c.Rule = "random tree schemas without references; a random choice of factorable sub-schemas (objects, non-nullable typed scalars) is moved into $defs / definitions of the same file, or into sibling files in random directory layouts (.json / .yaml, with or without --resolve-extension, with or without a fragment); the inline program and the reference-form program are compiled and run on the same documents (valid, mutated, single deletions): same verdict, same re-marshalled value; every definition yields exactly one type used by all its referrers. Plus composition across documents: 2-3 files in star or chain layout and different directories, each with its own $defs under the same names (Base, Extra) but different content and the same reference texts used directly, as array items and as allOf/anyOf branches, compared with the single-file form in which every reference is replaced by its target. Plus symbolic links: the referenced document reached through a symlinked directory (also nested) or being a symlink itself, containing a relative reference that climbs out with .., with a decoy where the unresolved path would lead. Plus self- and mutually recursive definitions with documents nested 1..60 deep (generation must terminate, all depths accepted). Distinct = distinct (form, verdict pair, document shape)."
+		c.Rule = "random tree schemas without references; a random choice of factorable sub-schemas (objects, non-nullable typed scalars) is moved into $defs / definitions of the same file, or into sibling files in random directory layouts (.json / .yaml, with or without --resolve-extension, with or without a fragment); the inline program and the reference-form program are compiled and run on the same documents (valid, mutated, single deletions): same verdict, same re-marshalled value; every definition yields exactly one type used by all its referrers. Plus composition across documents: 2-3 files in star or chain layout and different directories, each with its own $defs under the same names (Base, Extra) but different content and the same reference texts used directly, as array items and as allOf/anyOf branches, compared with the single-file form in which every reference is replaced by its target. Plus near-duplicates across files: two sibling files each defining $defs/Options, differing in exactly one keyword (24 perturbations, both orders), both referenced from the main document, compared with the inlined form. Plus symbolic links: the referenced document reached through a symlinked directory (also nested) or being a symlink itself, containing a relative reference that climbs out with .., with a decoy where the unresolved path would lead. Plus self- and mutually recursive definitions with documents nested 1..60 deep (generation must terminate, all depths accepted). Distinct = distinct (form, verdict pair, document shape)."
 		c.Proofs([]string{"GJS.Props.C10"}, []string{
 			"GJS.Props.C10.spec_ref_is_inline", "GJS.Props.C10.extractRef_defs", "GJS.Props.C10.extractRef_definitions",
 			"GJS.Props.C10.extractRef_prefix_equiv", "GJS.Props.C10.extractRef_file", "GJS.Props.C10.cacheKey_separates_directories",
@@ -288,6 +288,7 @@ func init() {
 		}
 		res = append(res, compositionAcrossFiles(c, &fails)...)
 		res = append(res, symlinkLayouts(c, &fails)...)
+		res = append(res, nearDupAcrossFiles(c, &fails)...)
 		breaks(c, res, map[string]bool{"run-json": true, "gen": true, "compile": true, "summary": true}, fails > 0)
 		knownProgramFindings(c)
 		knownMultiFileFindings(c)
